@@ -101,9 +101,9 @@ var attribution = []string{"store."}
 var exclude = []string{"fs/layer.(*layer).Verify", "fs/layer.(*layer).Info"}
 
 func top(r *vf.Run) {
-	nSeq := r.N(200, 4000)
-	nConc := r.N(60, 1200)
-	nFuse := r.N(16, 260)
+	nSeq := r.N(200, 2400)
+	nConc := r.N(60, 360)
+	nFuse := r.N(16, 120)
 	walls := map[string]float64{}
 	timed := func(stage string, f func()) {
 		t := time.Now()
@@ -111,11 +111,11 @@ func top(r *vf.Run) {
 		walls[stage] = time.Since(t).Seconds()
 		r.Logf("stage %s done in %.1fs", stage, walls[stage])
 	}
-	timed("seq", func() { runBatches(r, "seq", nSeq, r.N(200, 500), false) })
-	timed("conc", func() { runBatches(r, "conc", nConc, r.N(60, 300), true) })
+	timed("seq", func() { runBatches(r, "seq", nSeq, r.N(200, 400), false) })
+	timed("conc", func() { runBatches(r, "conc", nConc, r.N(60, 120), true) })
 	defer func() { r.Set("stage_wall_s", walls) }()
 	if fuseProbe(r) {
-		timed("fuse", func() { runBatches(r, "fuse", nFuse, r.N(16, 130), false) })
+		timed("fuse", func() { runBatches(r, "fuse", nFuse, r.N(16, 60), false) })
 	} else {
 		r.Inconclusive("capability: FUSE mounts are not available; the fuse stage (store/fs.go through the kernel) was skipped")
 	}
